@@ -176,3 +176,12 @@ def brier(lam, w):
     n = lam.size
     t = [(-math.expm1(-l) - (1.0 if k > 0 else 0.0)) ** 2 for l, k in zip(lam.ravel().tolist(), w.ravel().tolist())]
     return -2.0 * math.fsum(t) / n
+
+
+def scale_factor(scale, shape, seed):
+    """A forecast scale factor: a number, or (given as "percell" / "permag" / "full") an array of that layout - scale() is documented for
+    "int, float, or ndarray"."""
+    if isinstance(scale, str):
+        shp = {"percell": (shape[0], 1), "permag": (shape[1],), "full": tuple(shape)}[scale]
+        return numpy.random.default_rng([int(seed), 55]).uniform(0.2, 3.0, shp)
+    return scale
